@@ -407,6 +407,9 @@ def line_rule(ctx: Ctx) -> None:
                 key = f"{cn}.{name}|{c.name}"
                 ok = False
                 why = "no line_number argument"
+                if isinstance(arg, ast.Subscript):
+                    ok = _is_loop_var(f, call, arg, lists)
+                    why = f"`{ast.unparse(arg)}` is not the line number of the entry being iterated over"
                 if isinstance(arg, ast.Name):
                     v = arg.id
                     if v in f.params:
@@ -427,22 +430,59 @@ def line_rule(ctx: Ctx) -> None:
     ok = form is not None and "_c1" in form["text"] and "_c0" not in form["text"]
     r.check(ok, "Parser._sanitize|carry", f.loc(), "comment stripping no longer keeps each entry's line number")
     f = m.method("Parser", "_tokenize", own=True)
-    txt = " ".join(ast.unparse(f.node).split())
-    r.check("for line_number, line in self.sanitized_program" in txt and "(line_number, line, self._pattern_line.parseString(line))" in txt,
-            "Parser._tokenize|carry", f.loc(), "tokens no longer carry (line_number, line)")
+    from ..parsershape import normal_flow
+    tfl = normal_flow(m, f)
+    E = "ELEM1.0(P0.sanitized_program)"
+    apps = [tfl.canon(e.expr) for e in tfl.effects if e.kind == "call" and isinstance(e.expr, ast.Call) and isinstance(e.expr.func, ast.Attribute)
+            and e.expr.func.attr == "append" and tfl.canon(e.expr.func.value).split("@")[0] == "P0.token_list"]
+    import re as _re
+    apps = [_re.sub(r"@\d+", "", a_) for a_ in apps]
+    want_t = {f"P0.token_list.append(({E}[0], {E}[1], P0._pattern_line.{fn}({E}[1])))" for fn in ("parseString", "parse_string")}
+    r.check(len(apps) == 1 and apps[0] in want_t, "Parser._tokenize|carry", f.loc(), f"tokens no longer carry (line_number, line): {apps}")
 
 
-def _is_loop_var(f: FuncInfo, node: ast.AST, var: str, lists) -> bool:
+def _entry_loops(f: FuncInfo, node: ast.AST, lists):
+    """For-loops over one of the entry lists that enclose `node`: yields (whole-element name or None, component names or None)."""
     for n in walk_no_nested(f.node):
-        if not (isinstance(n, ast.For) and any(node is x for x in ast.walk(n)) and isinstance(n.target, ast.Tuple) and n.target.elts):
+        if not (isinstance(n, ast.For) and any(node is x for x in ast.walk(n))):
             continue
         tgt, it = n.target, n.iter
-        # for i, (line_number, line, parsed) in enumerate(<list>)
-        if isinstance(it, ast.Call) and isinstance(it.func, ast.Name) and it.func.id == "enumerate" and len(it.args) == 1 \
-                and len(tgt.elts) == 2 and isinstance(tgt.elts[1], ast.Tuple):
+        # for i, <entry> in enumerate(<list>[, start])
+        if isinstance(it, ast.Call) and isinstance(it.func, ast.Name) and it.func.id == "enumerate" and 1 <= len(it.args) <= 2 \
+                and isinstance(tgt, ast.Tuple) and len(tgt.elts) == 2:
             tgt, it = tgt.elts[1], it.args[0]
-        if tgt.elts and isinstance(tgt.elts[0], ast.Name) and tgt.elts[0].id == var and " ".join(ast.unparse(it).split()) in lists:
-            return True
+        if " ".join(ast.unparse(it).split()).replace(f"{f.params[0]}.", "self.", 1) not in lists and " ".join(ast.unparse(it).split()) not in lists:
+            continue
+        if isinstance(tgt, ast.Name):
+            yield tgt.id, None
+        elif isinstance(tgt, ast.Tuple) and tgt.elts and all(isinstance(x, ast.Name) for x in tgt.elts):
+            yield None, [x.id for x in tgt.elts]
+
+
+def _is_loop_var(f: FuncInfo, node: ast.AST, var, lists, depth: int = 0) -> bool:
+    """Is `var` (a name or an expression) the line number -- component 0 -- of the entry an enclosing loop over one of the entry
+    lists is looking at?  Follows single-assigned aliases (`n = entry[0]`, `n, l, p = entry`)."""
+    e = ast.Name(id=var, ctx=ast.Load()) if isinstance(var, str) else var
+    if depth > 5:
+        return False
+    loops = list(_entry_loops(f, node, lists))
+    if isinstance(e, ast.Subscript) and isinstance(e.slice, ast.Constant) and e.slice.value == 0 and isinstance(e.value, ast.Name):
+        return any(whole == e.value.id for whole, _c in loops)
+    if not isinstance(e, ast.Name):
+        return False
+    if any(comps is not None and comps[0] == e.id for _w, comps in loops):
+        return True
+    # a single-assigned alias
+    stores = [x for x in ast.walk(f.node) if isinstance(x, ast.Name) and x.id == e.id and isinstance(x.ctx, ast.Store)]
+    if len(stores) != 1:
+        return False
+    for a_ in ast.walk(f.node):
+        if isinstance(a_, ast.Assign) and len(a_.targets) == 1:
+            t = a_.targets[0]
+            if isinstance(t, ast.Name) and t.id == e.id:
+                return _is_loop_var(f, node, a_.value, lists, depth + 1)
+            if isinstance(t, ast.Tuple) and t.elts and isinstance(t.elts[0], ast.Name) and t.elts[0].id == e.id and isinstance(a_.value, ast.Name):
+                return any(whole == a_.value.id for whole, _c in loops)
     return False
 
 
@@ -461,7 +501,7 @@ def _caller_passes_loop_var(m, g: FuncInfo, f: FuncInfo, param: str, lists) -> b
         if isinstance(c.func, ast.Attribute) and c.func.attr == f.name:
             arg = next((k.value for k in c.keywords if k.arg == param), None)
             if arg is None:
-                idx = f.params.index(param) - 1
+                idx = f.params.index(param) - (0 if f.is_staticmethod or f.cls is None else 1)
                 arg = c.args[idx] if idx < len(c.args) else None
             ok = ok and isinstance(arg, ast.Name) and (_is_loop_var(g, c, arg.id, lists) or (arg.id in g.params and arg.id in ("line_number",)
                                                       and all(_caller_passes_loop_var(m, h, g, arg.id, lists) for h in _callers(m, g))))
